@@ -33,6 +33,17 @@ def run(ctx):
     n1, v1 = diff_games(ctx, "g_classify", games, "move classification (quiet, capture, gives-check) differs from what playing the move does",
                         impl, model, tally=tally)
     n2, v2 = diff_games(ctx, "g_classify_alg", games, "move classification differs from the algorithmic model", impl, model)
+    # make / unmake / null-move scripts on ONE Position object, the observer called after EVERY step (caches and lazily updated members
+    # must follow the object through every kind of step): compared with the model's value for the position represented
+    wroots = [g_[0] for g_ in games][: (150 if q else 2500)]
+    wl = ["walkgen %d %d %d %s" % (ctx.rng.randrange(1 << 30), 40 if q else 100, ctx.rng.choice([3, 6]), f_) for f_ in wroots]
+    rcw, wscripts, ew = run_lines(model, wl, shards=NPROC)
+    wgames = [(f_, (s_ or "").split()) for f_, s_ in zip(wroots, wscripts) if s_]
+    nw, vw = diff_games(ctx, "walk_classify", wgames, "move classification after a make / unmake / null-move script on one object differs from what playing the move does", impl, model)
+    nw2, vw2 = diff_games(ctx, "walk_classify_do", wgames, "the same, observed only after made moves (not after unmake: the way a search asks)", impl, model)
+    vw += vw2
+    ctx.notes["walk_script_observations"] = nw + nw2
+    v1 += vw
     ctx.notes["move_distribution"] = hist
     ctx.cov["rule"] = ("every legal move of %d constructed valid positions (promotion / castling / pin / en-passant heavy templates) and of the "
                        "positions along %d games: the engine's three answers must equal (a) the rules-level outcome of playing the move "
